@@ -109,4 +109,91 @@ theorem emini_total (cls : QCls) (c : IMiniCfg) (emphasis fragJoin : Bool) (maxN
   rw [h]
   exact ⟨_, rfl⟩
 
+/-! ### with strikethrough -/
+
+theorem strikePush_frame (o c : Bool) : ∀ (k : Nat) (s : IState),
+    (strikePush o c k s).src = s.src ∧ (strikePush o c k s).level = s.level ∧ (strikePush o c k s).posMax = s.posMax := by
+  intro k
+  induction k with
+  | zero => intro s; exact ⟨rfl, rfl, rfl⟩
+  | succ n ih =>
+    intro s
+    simp only [strikePush]
+    obtain ⟨a, b, c'⟩ := ih { (s.push "text" "" 0 "~~" "" "") with delimiters := (s.push "text" "" 0 "~~" "" "").delimiters ++
+        [{ marker := 0x7E, length := 0, token := ((s.push "text" "" 0 "~~" "" "").tokens.length : Int) - 1, end_ := -1, open_ := o, close := c }] }
+    obtain ⟨p1, p2, p3, _⟩ := push0_frame s "text" "" "~~" "" ""
+    exact ⟨a.trans p1, b.trans p2, c'.trans p3⟩
+
+theorem iok_strike (cls : QCls) : IRuleOK2 (ruleStrike cls) := by
+  have key : ∀ (s : IState) (silent : Bool), ICtx s →
+      ruleStrike cls s silent = .ok (false, s) ∨ ∃ s', ruleStrike cls s silent = .ok (true, s') ∧ s.pos < s'.pos ∧ s'.src = s.src
+        ∧ s'.level = s.level ∧ s'.posMax = s.posMax := by
+    intro s silent hc
+    have hin : s.pos < s.src.length := by have := hc.1; have := hc.2; omega
+    unfold ruleStrike
+    rw [List.getElem?_eq_getElem hin]
+    simp only
+    split
+    · exact .inl rfl
+    · split
+      · exact .inl rfl
+      · split
+        · exact .inl rfl
+        · rename_i hlen
+          right
+          obtain ⟨f1, f2, f3⟩ := strikePush_frame (scanDelims cls s s.pos true).1 (scanDelims cls s s.pos true).2.1 ((scanDelims cls s s.pos true).2.2 / 2)
+            (if (scanDelims cls s s.pos true).2.2 % 2 = 1 then s.push "text" "" 0 "~" "" "" else s)
+          have g : (if (scanDelims cls s s.pos true).2.2 % 2 = 1 then s.push "text" "" 0 "~" "" "" else s).src = s.src
+              ∧ (if (scanDelims cls s s.pos true).2.2 % 2 = 1 then s.push "text" "" 0 "~" "" "" else s).level = s.level
+              ∧ (if (scanDelims cls s s.pos true).2.2 % 2 = 1 then s.push "text" "" 0 "~" "" "" else s).posMax = s.posMax := by
+            split
+            · obtain ⟨p1, p2, p3, _⟩ := push0_frame s "text" "" "~" "" ""; exact ⟨p1, p2, p3⟩
+            · exact ⟨rfl, rfl, rfl⟩
+          exact ⟨_, rfl, by show s.pos < s.pos + _; omega, f1.trans g.1, f2.trans g.2.1, f3.trans g.2.2⟩
+  refine ⟨?_, ?_, ?_, ?_⟩
+  · intro s silent hc
+    rcases key s silent hc with h | ⟨s', h, _⟩ <;> exact ⟨_, _, h⟩
+  · intro s s' hc h
+    rcases key s false hc with h' | ⟨s'', h', hp, _⟩
+    · rw [h'] at h; cases h
+    · rw [h'] at h; cases h; exact hp
+  · intro s s' hc h
+    rcases key s false hc with h' | ⟨s'', h', _⟩
+    · rw [h'] at h; cases h; rfl
+    · rw [h'] at h; cases h
+  · intro s m s' hc h
+    rcases key s false hc with h' | ⟨s'', h', _, h2, h3, h4⟩
+    · rw [h'] at h; cases h; exact ⟨rfl, rfl, rfl⟩
+    · rw [h'] at h; cases h; exact ⟨h2, h3, h4⟩
+
+/-- the inline chain `text, newline?, escape?, backticks?, strikethrough?, emphasis?` (registration order) -/
+def sminiChain (cls : QCls) (c : IMiniCfg) (strike emphasis : Bool) : List IRule :=
+  iminiChain c ++ (if strike then [ruleStrike cls] else []) ++ (if emphasis then [ruleEmphasis cls] else [])
+
+/-- the second rule chain (`ruler2`) that goes with it, before `fragments_join` -/
+def sminiPost (strike emphasis : Bool) : List (IState → IState) :=
+  (if strike || emphasis then [balancePairs] else []) ++ (if strike then [strikePost] else []) ++ (if emphasis then [emphasisPost] else [])
+
+theorem sminiChain_ok (cls : QCls) (c : IMiniCfg) (strike emphasis : Bool) : ∀ r ∈ sminiChain cls c strike emphasis, IRuleOK2 r := by
+  intro r hr
+  simp only [sminiChain, List.mem_append] at hr
+  rcases hr with (hr | hr) | hr
+  · exact iminiChain_ok c r hr
+  · split at hr
+    · simp at hr; subst hr; exact iok_strike cls
+    · cases hr
+  · split at hr
+    · simp at hr; subst hr; exact iok_emphasis cls
+    · cases hr
+
+/-- **C01.smini_total** — the inline sub-parser `text, newline, escape, backticks, strikethrough, emphasis` with `balance_pairs` and the
+two post-processing rules: for every source, rule subset, `maxNesting` and character classification the parse returns a token list -/
+theorem smini_total (cls : QCls) (c : IMiniCfg) (strike emphasis fragJoin : Bool) (maxNesting : Int) (src : List Char) :
+    ∃ ts, inlineParse (sminiChain cls c strike emphasis) (sminiPost strike emphasis) fragJoin maxNesting src = .ok ts := by
+  unfold inlineParse tokenize
+  obtain ⟨s', h⟩ := inline_total2 (sminiChain cls c strike emphasis) (sminiChain_ok cls c strike emphasis) maxNesting
+    ((IState.init src).posMax - (IState.init src).pos + 1) false (IState.init src) (Nat.le_refl _) (by omega) (fun _ => rfl)
+  rw [h]
+  exact ⟨_, rfl⟩
+
 end MdIt.C01
